@@ -17,14 +17,69 @@
 //!   api=build|pf    (mode P only) build(): grammar_path/output_path/build; pf: the deprecated but public
 //!                   `CTParserBuilder::process_file(&mut self, y, yout)` (paths are NOT set on the builder; its
 //!                   result is the token map, so `regenerated` is reported as `?`)
+//!   lt=-|A|B       (mode P only) the parser builder's type parameter: `-` DefaultLexerTypes<StorageT>; A / B: a
+//!                   user-owned `MyLexerTypes` whose `impl LexerTypes` says `type LexemeT = LexA<StorageT>` /
+//!                   `LexB<StorageT>` — the two states of ONE type before and after the user edits the impl:
+//!                   `type_name::<MyLexerTypes>()` and StorageT are the same, only LexemeT differs
 //! result:  `P:<res> L:<res>` with <res> = `ok:<regenerated 0|1|?>` | `err:<hex msg prefix>` |
 //!   `panic` | `-` (not run)
 #![allow(deprecated)]
 use gvh::common::{hex, unhex};
 use gvh::util::*;
 use lrlex::{CTLexerBuilder, DefaultLexerTypes};
-use lrpar::{CTParserBuilder, RecoveryKind};
+use lrpar::{CTParserBuilder, LexerTypes, RecoveryKind};
 use std::collections::HashMap;
+
+// two lexeme types a user-owned `impl LexerTypes` may name
+macro_rules! lexeme {
+    ($n:ident) => {
+        #[derive(Clone, Copy, Debug, Eq, Hash, PartialEq)]
+        pub struct $n<S> {
+            start: usize,
+            len: usize,
+            faulty: bool,
+            tok_id: S,
+        }
+        impl<S: Copy + std::fmt::Debug + Eq + std::hash::Hash> lrpar::Lexeme<S> for $n<S> {
+            fn new(tok_id: S, start: usize, len: usize) -> Self {
+                $n { start, len, faulty: false, tok_id }
+            }
+            fn new_faulty(tok_id: S, start: usize, len: usize) -> Self {
+                $n { start, len, faulty: true, tok_id }
+            }
+            fn tok_id(&self) -> S {
+                self.tok_id
+            }
+            fn span(&self) -> cfgrammar::Span {
+                cfgrammar::Span::new(self.start, self.start + self.len)
+            }
+            fn faulty(&self) -> bool {
+                self.faulty
+            }
+        }
+        impl<S> std::fmt::Display for $n<S> {
+            fn fmt(&self, f: &mut std::fmt::Formatter) -> std::fmt::Result {
+                write!(f, "{}..{}", self.start, self.start + self.len)
+            }
+        }
+    };
+}
+lexeme!(LexA);
+lexeme!(LexB);
+
+#[derive(Debug)]
+pub struct MyLexError;
+impl lrpar::LexError for MyLexError {
+    fn span(&self) -> cfgrammar::Span {
+        cfgrammar::Span::new(0, 0)
+    }
+}
+impl std::error::Error for MyLexError {}
+impl std::fmt::Display for MyLexError {
+    fn fmt(&self, f: &mut std::fmt::Formatter) -> std::fmt::Result {
+        write!(f, "lex error")
+    }
+}
 
 fn vis_p(c: &str) -> lrpar::Visibility {
     match c {
@@ -79,11 +134,11 @@ macro_rules! gen_run {
             let lout = if g("lout") == "-" { String::new() } else { unhex(&g("lout")) };
             let modname = g("mod");
             let lmodname = g("lmod");
-            fn cfg_p<'a>(
-                mut ctp: CTParserBuilder<'a, DefaultLexerTypes<$t>>,
+            fn cfg_p<'a, LT: LexerTypes<StorageT = $t>>(
+                mut ctp: CTParserBuilder<'a, LT>,
                 kv: &HashMap<String, String>,
                 modname: &'static str,
-            ) -> CTParserBuilder<'a, DefaultLexerTypes<$t>> {
+            ) -> CTParserBuilder<'a, LT> {
                 let g = |k: &str| kv.get(k).cloned().unwrap_or_else(|| "-".to_string());
                 if g("yk") != "-" {
                     ctp = ctp.yacckind(gvh::common::yacckind(&g("yk")));
@@ -151,31 +206,54 @@ macro_rules! gen_run {
                 }
                 ctl.lexer_path(&lpath).output_path(&lout)
             };
-            match mode.as_str() {
-                "P" if g("api") == "pf" => {
-                    let kv2 = kv.clone();
-                    let (yp, yo) = (ypath.clone(), yout.clone());
-                    let r = catch(std::panic::AssertUnwindSafe(move || {
-                        let mut b = cfg_p(CTParserBuilder::<DefaultLexerTypes<$t>>::new(), &kv2, modname);
+            // mode P with the parser builder's type parameter LT
+            fn mode_p<LT: LexerTypes<StorageT = $t> + 'static>(
+                kv: &HashMap<String, String>,
+                modname: &'static str,
+                ypath: &str,
+                yout: &str,
+            ) -> String {
+                let pf = kv.get("api").map(|s| s == "pf").unwrap_or(false);
+                let kv2 = kv.clone();
+                let (yp, yo) = (ypath.to_string(), yout.to_string());
+                let r = catch(std::panic::AssertUnwindSafe(move || {
+                    if pf {
+                        let mut b = cfg_p(CTParserBuilder::<LT>::new(), &kv2, modname);
                         match b.process_file(&yp, &yo) {
                             Ok(_) => "ok:?".to_string(),
                             Err(e) => format!("err:{}", short(&e.to_string())),
                         }
-                    }));
-                    format!("P:{} L:-", r.unwrap_or_else(|_| "panic".to_string()))
-                }
-                "P" => {
-                    let kv2 = kv.clone();
-                    let r = catch(std::panic::AssertUnwindSafe(move || {
-                        match cfg_p(CTParserBuilder::<DefaultLexerTypes<$t>>::new(), &kv2, modname)
-                            .build()
-                        {
+                    } else {
+                        match cfg_p(CTParserBuilder::<LT>::new(), &kv2, modname).build() {
                             Ok(p) => format!("ok:{}", if p.regenerated() { 1 } else { 0 }),
                             Err(e) => format!("err:{}", short(&e.to_string())),
                         }
-                    }));
-                    format!("P:{} L:-", r.unwrap_or_else(|_| "panic".to_string()))
+                    }
+                }));
+                format!("P:{} L:-", r.unwrap_or_else(|_| "panic".to_string()))
+            }
+            match mode.as_str() {
+                "P" if g("lt") == "A" => {
+                    #[derive(Debug, Clone)]
+                    struct MyLexerTypes;
+                    impl LexerTypes for MyLexerTypes {
+                        type LexemeT = LexA<$t>;
+                        type StorageT = $t;
+                        type LexErrorT = MyLexError;
+                    }
+                    mode_p::<MyLexerTypes>(kv, modname, &ypath, &yout)
                 }
+                "P" if g("lt") == "B" => {
+                    #[derive(Debug, Clone)]
+                    struct MyLexerTypes;
+                    impl LexerTypes for MyLexerTypes {
+                        type LexemeT = LexB<$t>; // <- the user's edit
+                        type StorageT = $t;
+                        type LexErrorT = MyLexError;
+                    }
+                    mode_p::<MyLexerTypes>(kv, modname, &ypath, &yout)
+                }
+                "P" => mode_p::<DefaultLexerTypes<$t>>(kv, modname, &ypath, &yout),
                 "S" => {
                     let kv2 = kv.clone();
                     let r = catch(std::panic::AssertUnwindSafe(move || {
